@@ -800,7 +800,7 @@ const FAULTS: [FaultKind; 13] = [
     FaultKind::WarningThenOk,
 ];
 
-fn history(ctx: &mut Ctx, focus: Focus) -> Verdict {
+pub(crate) fn history(ctx: &mut Ctx, focus: Focus) -> Verdict {
     crate::ssim::quiet_panics();
     let rt_seed = ctx.pick(1 << 30) as u64;
     let hist = History { rt: runtime(rt_seed) };
@@ -849,7 +849,7 @@ fn history(ctx: &mut Ctx, focus: Focus) -> Verdict {
         sanitize_for_io_fault(ctx, &mut w);
         // C01: one fault-free run in 60 is made by the agent executable (end to end: argument parsing,
         // PEM files, real TLS, real TCP to the IRRd, process exit status)
-        let by_executable = focus == Focus::C01 && !fault_runs && ctx.chance(1, 60);
+        let by_executable = matches!(focus, Focus::C01 | Focus::C15) && !fault_runs && ctx.chance(1, 60);
         let (obs, j2) = if by_executable { agent_run_executable(ctx, &w, junos) } else { agent_run(ctx, &hist, &w, junos, irr_refuse) };
         if let Err(e) = &obs.result {
             if e.starts_with("harness:") {
@@ -1199,4 +1199,4 @@ agent_spec!(C03, "C03", run_c03, "fault_enumeration", 20_000, 1_000_000, 0,
 agent_spec!(C04, "C04", run_c04, "fault_enumeration", 20_000, 1_000_000, 0,
     "1-2 runs per history with 1-2 faults at seeded positions of the request sequence open -> get-config x2 -> load x N -> commit -> close-configuration -> close-session; fault kinds: rpc-error, error inside load-configuration-results, error followed by <ok/>, the positive indication followed by an error, a reply without any content (no acknowledgement), malformed reply, truncated reply, unknown message-id, another outstanding request's message-id, duplicated reply, close before the reply, close after the reply, and (non-fault) warning followed by <ok/>; reply delays let a failing load reply arrive after later loads were sent. Oracle on the per-session request log: commit only after open and every load were positively acknowledged and delivered, never after a failed step; fault => run fails; success => commit, close-configuration and close-session acknowledged");
 agent_spec!(C15, "C15", run_c15, "exploration", 20_000, 1_000_000, 0,
-    "1-5 (thorough: 1-10) managed policies of which some are unevaluable: unknown as-set, IRR error response, PeerAS, AS-path regular expression, community match; all hash orders. Oracle: the run succeeds, every evaluable policy reaches its reference set and is committed, the unevaluable ones are untouched. The violation class names the kind of unevaluable member present");
+    "1-5 (thorough: 1-10) managed policies of which some are unevaluable: unknown as-set, IRR error response, PeerAS, AS-path regular expression, community match; all hash orders; one run in 60 is made end to end by the agent executable (its own main(), i.e. with whatever process-wide hooks it installs). Oracle: the run succeeds, every evaluable policy reaches its reference set and is committed, the unevaluable ones are untouched. The violation class names the kind of unevaluable member present", COMPONENTS_C01);
